@@ -460,6 +460,20 @@ impl Ctx {
             kinds.insert(format!("{}.{}", self.rel(p.side), p.kind));
             lines.push(format!("pending {} future on {} ({} polls, woken={})", p.kind, p.side.name(), p.polls, p.flag.woken.load(Ordering::SeqCst)));
         }
+        for side in Side::BOTH {
+            if let Some(c) = self.sides[side.idx()].conn.borrow().as_ref() {
+                let st = c.stats();
+                lines.push(format!(
+                    "[{} stats: udp tx {} rx {} datagrams, lost packets {}, congestion events {}, close reason {:?}]",
+                    side.name(),
+                    st.udp_tx.datagrams,
+                    st.udp_rx.datagrams,
+                    st.path.lost_packets,
+                    st.path.congestion_events,
+                    c.close_reason()
+                ));
+            }
+        }
         let ck = self.spec.close.map(|c| c.kind.name()).unwrap_or("none");
         let key = format!(
             "{}:never-stranded:{}:{}:{}",
@@ -967,10 +981,21 @@ async fn setup_probe_streams(ctx: &Rc<Ctx>) -> Result<(), String> {
     }
     let (mut c2s, c2r) = c.open_bi_wait().await.map_err(|e| format!("probe open 2: {e:?}"))?;
     let _ = c2s.set_priority(-1);
-    fill_until_blocked(&mut c2s).await?;
+    let small = ctx.row().win == Win::Small;
+    if small {
+        fill_until_blocked(&mut c2s).await?;
+    } else {
+        // default windows: blocking a writer would take 1.25 MB of never-read data per direction,
+        // which overflows the loopback socket buffers (packet loss, which this harness does not
+        // own); the blocked-write future is pending only in the small-window half of the rows
+        let BufResult(r, _) = c2s.write(vec![0x5Au8]).await;
+        r.map_err(|e| format!("probe write 2: {e:?}"))?;
+    }
     let (mut s2s, s2r) = s.accept_bi().await.map_err(|e| format!("probe accept 2: {e:?}"))?;
     let _ = s2s.set_priority(-1);
-    fill_until_blocked(&mut s2s).await?;
+    if small {
+        fill_until_blocked(&mut s2s).await?;
+    }
     *ctx.sides[0].ps.borrow_mut() = Some(ProbeStreams { pb1_send: Some(c1s), pb1_recv: Some(c1r), pb2_send: Some(c2s), pb2_recv: Some(c2r) });
     *ctx.sides[1].ps.borrow_mut() = Some(ProbeStreams { pb1_send: Some(s1s), pb1_recv: Some(s1r), pb2_send: Some(s2s), pb2_recv: Some(s2r) });
     Ok(())
@@ -1069,6 +1094,12 @@ impl Ctx {
             }
             if let Some(mut s) = ps.pb1_send.take() {
                 add(side, "stopped", Expect::AfterClose, Box::pin(async move { short(format!("{:?}", s.stopped().await)) }));
+            }
+            if self.row().win != Win::Small {
+                // not blocked (see setup_probe_streams): keep the stream alive, no probe
+                if let Some(s) = ps.pb2_send.take() {
+                    self.kept.borrow_mut().push(Box::new(s));
+                }
             }
             if let Some(mut s) = ps.pb2_send.take() {
                 add(side, "write_blocked", Expect::AfterClose, Box::pin(async move {
@@ -1325,10 +1356,20 @@ async fn run_async(spec: RunSpec) -> RunResult {
 
 /// One execution in a fresh runtime on the calling thread.
 pub fn run_once(spec: &RunSpec) -> RunResult {
-    let rt = match compio_runtime::Runtime::new() {
+    let mut pb = compio_driver::ProactorBuilder::new();
+    pb.capacity(256);
+    let want = match spec.driver {
+        Drv::Uring => compio_driver::DriverType::IoUring,
+        Drv::Poll => compio_driver::DriverType::Poll,
+    };
+    pb.driver_type(want);
+    let rt = match compio_runtime::Runtime::builder().with_proactor(pb).build() {
         Ok(rt) => rt,
         Err(e) => vcore::machinery_error(&format!("cannot create a compio runtime: {e}")),
     };
+    if rt.driver_type() != want {
+        vcore::machinery_error(&format!("asked for driver {want:?}, got {:?}", rt.driver_type()));
+    }
     let spec = spec.clone();
     rt.block_on(run_async(spec))
 }
